@@ -1140,7 +1140,9 @@ class ValueMap(Value):
 
     def asList(self):
         result = ValueList()
-        for value in sorted(self.value.values()):
+        # sorted by value; equal values in the order of their keys, so that
+        # the result does not depend on the order of insertion
+        for value in sorted(self.value[key] for key in self.getSortedKeys()):
             result.addItem(value)
         return result
 
